@@ -207,7 +207,15 @@ def run(ctx, prog, S, M, T, hints):
                 else:
                     ctx.ok("R3.5b", key, sample={"function": f.fq, "child": tag, "missing_as_created": missing_attrs or other[0][2],
                                                  "completion": "constant stores"})
+    # the generated adder itself must set attributes before inserting (else _add_x(val=value) is an attach-first site)
+    for sev, where, what in M.mechanism_problems:
+        if "_add_child" in what:
+            fl, _, ln = where.partition(":")
+            ctx.violation("R3.5b", "xmlchemy:_add_child", what, file=fl, line=ln)
     ctx.count("attach_incomplete_sites", nsites)
+    from checks import c03_card
+
+    c03_card.run(ctx, prog, S, M, T, E)
     if nsites == 0:
         ctx.error("R3.5b", "no attach site of an incomplete element recognised (recogniser broken?)")
 
